@@ -42,6 +42,10 @@ class App(object):
             pass
         c.set_override('auth_strategy', 'noauth2', group='api')
         c.set_override('connection', dburl, group='placement_database')
+        # C12 quantifies over ANY configured placeholder project / user for consumers written below 1.8: run with two
+        # DISTINCT values (the defaults are equal, which would hide a mix-up of the two options)
+        c.set_override('incomplete_consumer_project_id', '99999999-0000-4000-8000-0000000000aa', group='placement')
+        c.set_override('incomplete_consumer_user_id', '99999999-0000-4000-8000-0000000000bb', group='placement')
         for (group, key), val in (overrides or {}).items():
             c.set_override(key, val, group=group)
         if policy_file:
